@@ -190,8 +190,12 @@ func evalGob(gc gobCase) *Failure {
 		return f
 	}
 	// direct, into a non-empty receiver: must replace it
-	for ri, rw := range [][]string{{"other", "words", "wordsworth"}, {"", "q"}, {"", "a", "ab", "b"}} {
+	for ri, rw := range [][]string{{"other", "words", "wordsworth"}, {"", "q"}, {"", "a", "ab", "b"}, {"x", "xy", "xyz", "z"}} {
 		t2, _ := dawg.New(toBytes(rw, false))
+		if ri%2 == 1 {
+			t2.GobEncode() // a receiver that has itself been encoded before (cached encodings must not survive a decode)
+			t2.Search(dawg.NewPatternSearcher([]byte("?"), '?'))
+		}
 		if msg, p := try(func() { err = t2.GobDecode(enc) }); p || err != nil {
 			return mk("into-nonempty/decode-failed"+sfx, fmt.Sprint(msg, err))
 		}
